@@ -150,6 +150,8 @@ func (s *Store[H]) deleteSequential(
 	defer func() {
 		if derr := done(); derr != nil {
 			err = errors.Join(err, fmt.Errorf("committing batch: %w", derr))
+			// nothing of the batch was deleted: no progress to report
+			highest = from
 			return
 		}
 		s.evictAll(&removed)
@@ -223,6 +225,10 @@ func (s *Store[H]) deleteParallel(ctx context.Context, from, to uint64) (uint64,
 		defer func() {
 			if err := done(); err != nil {
 				last.err = errors.Join(last.err, fmt.Errorf("committing delete batch: %w", err))
+				// nothing of this worker's batch was deleted: report the lowest height it took
+				if len(removed.heights) > 0 {
+					last.height = removed.heights[0]
+				}
 				return
 			}
 			s.evictAll(&removed)
